@@ -202,6 +202,79 @@ CGraph::UnorderedItems CGraph::ExpandInputs'''),
   }
   ParseCst(target);'''),
  ('ccl/rslang/include/ccl/rslang/LexerBase.hpp', 'literal converted with stoi (reached only for tokens the range test let through)', '''    return TokenData{ static_cast<int32_t>(std::atol(Text().c_str())) }; // TODO: strtol''', '''    return TokenData{ std::stoi(Text()) };'''),
+ ('ccl/rslang/src/StructuredData.cpp', 'CheckCompatible with an explicit loop', '''      const auto& base = type.B().Base();
+      return std::all_of(std::begin(data.B()), std::end(data.B()),
+        [&](const auto& element) { return CheckCompatible(element, base); });''', '''      const auto& base = type.B().Base();
+      for (const auto& element : data.B()) {
+        if (!CheckCompatible(element, base)) {
+          return false;
+        }
+      }
+      return true;'''),
+ ('ccl/cclLang/src/Reference.cpp', 'ExtractAll with a while loop', '''  for (auto position = NextReference(text); position.has_value();
+    position = NextReference(text, position->finish)) {
+    if (auto ref = Reference::Parse(Substr(text, position.value())); ref.IsValid()) {
+      ref.position = position.value();
+      result.emplace_back(std::move(ref));
+    }
+  }
+  return result;''', '''  auto position = NextReference(text);
+  while (position.has_value()) {
+    auto ref = Reference::Parse(Substr(text, position.value()));
+    if (ref.IsValid()) {
+      ref.position = position.value();
+      result.emplace_back(std::move(ref));
+    }
+    position = NextReference(text, position->finish);
+  }
+  return result;'''),
+ ('ccl/cclGraph/src/CGraph.cpp', 'reachability through the closure of the source minus the trivial path', '''  UnorderedItems successors{};
+  for (const auto child : graph[IndexFor(source)].outputs) {
+    successors.emplace(graph[child].uid);
+  }
+  return ExpandOutputs(successors).contains(dest);''', '''  for (const auto child : graph[IndexFor(source)].outputs) {
+    if (ExpandOutputs({ graph[child].uid }).contains(dest)) {
+      return true;
+    }
+  }
+  return false;'''),
+ ('ccl/core/src/semantic/rsform/RSForm.cpp', 'duplicate translation composed through a named single-pair translation', '''            EntityTranslation step{};
+            step.Insert(copy, original);
+            translation.SuperposeWith(step); // Note: redirect constituents already merged into the erased copy''', '''            EntityTranslation erasedToSurvivor{};
+            erasedToSurvivor.Insert(copy, original);
+            translation.SuperposeWith(erasedToSurvivor);'''),
+ ('ccl/core/src/semantic/rsmodel/RSModel.cpp', 'erase prunes through a helper lambda', '''    for (const auto dependant : dependants) {
+      // Note: structures are pruned again now that the erased constituent no longer types them
+      if (dependant != target && core.GetRS(dependant).type == CstType::structured) {
+        dataFacet->PruneStructure(dependant);
+      }
+    }''', '''    const auto pruneIfStructure = [&](const EntityUID dependant) {
+      if (dependant != target && core.GetRS(dependant).type == CstType::structured) {
+        dataFacet->PruneStructure(dependant);
+      }
+    };
+    for (const auto dependant : dependants) {
+      pruneIfStructure(dependant);
+    }'''),
+ ('ccl/rslang/src/SDataCompact.cpp', 'unpack loop counts upwards', '''  auto count = declared;
+  for (; pos_x < size(input) && count > 0; ++pos_x, --count) {
+    pos_y = base_y + 1;
+    if (!ReadElementInto(modifiableResult, baseType)) {
+      return std::nullopt;
+    }
+  }
+  if (count != 0 && declared != SDCompact::unknownCount) {
+    return std::nullopt;
+  }''', '''  std::remove_const_t<decltype(declared)> taken = 0;
+  for (; pos_x < size(input) && taken < declared; ++pos_x, ++taken) {
+    pos_y = base_y + 1;
+    if (!ReadElementInto(modifiableResult, baseType)) {
+      return std::nullopt;
+    }
+  }
+  if (taken != declared && declared != SDCompact::unknownCount) {
+    return std::nullopt;
+  }'''),
 ]
 
 
